@@ -1,7 +1,7 @@
 (* C17 part 2c: trim_line / LayoutSegment.subseg - the lines apply_text_layout cuts itself
    (clip mode, overlong custom layouts) stay well-formed, and a cut text segment shows exactly
    the columns of the window, the blank for half a double-width character carrying that
-   character's attribute. *)
+   character's attribute (the character at text offset 0 included). *)
 From Coq Require Import ZArith List Bool Lia ZifyBool.
 Import ListNotations.
 From Urwid Require Import PyBase PyList AttrFlow AttrFlowBasics AttrFlowLayout AttrFlowClip.
@@ -150,7 +150,7 @@ Proof.
 Qed.
 
 (* ---------- per-column demands, in layout columns ---------- *)
-Definition pad_attr (attrs : rle) (o : Z) : attr := if o =? 0 then None else rle_get_at attrs o.
+Definition pad_attr (attrs : rle) (o : Z) : attr := rle_get_at attrs o.
 
 Definition seg_cols (text : list chr) (attrs : rle) (s : seg) : list attr :=
   match s with
@@ -197,22 +197,6 @@ Proof.
 Qed.
 
 (* ---------- subseg of a text segment ---------- *)
-(* the one case where the code does not give the blank its character's attribute: the cut runs
-   through the double-width character at text offset 0 ("elif s.offs:" reads offset 0 as none) *)
-Definition cut_at_offset_zero (text : list chr) (o start e : Z) : Prop :=
-  o = 0 /\ (start = 1 \/ start = 0 /\ e = 1) /\ exists c t, text = c :: t /\ c_lw c = 2.
-
-Lemma text_row_head text attrs en x rest : 0 < en -> en <= zlen text ->
-  text_row text attrs 0 en = x :: rest -> exists c t, text = c :: t /\ c_lw c = r_wid (fst x).
-Proof.
-  intros H0 H1 E. unfold text_row, text_rchars in E. rewrite py_slice_sub in E by lia.
-  unfold sub in E. change (Z.to_nat 0) with 0%nat in E. cbn [skipn] in E.
-  destruct text as [|c t]; [unfold zlen in H1; cbn in H1; lia|].
-  replace (Z.to_nat (en - 0)) with (S (Z.to_nat (en - 1))) in E by lia.
-  unfold zrange' in E. replace (Z.to_nat (en - 0)) with (S (Z.to_nat (en - 1))) in E by lia.
-  cbn [firstn map zseq combine] in E. inversion E; subst. exists c, t. split; reflexivity.
-Qed.
-
 Lemma last_attr_text_row text attrs o m : 0 <= o -> o < m -> m <= zlen text ->
   last_attr (text_row text attrs o m) = rle_get_at attrs (m - 1).
 Proof.
@@ -239,8 +223,7 @@ Qed.
 Lemma subseg_text_spec text attrs sc o en start e :
   wf_pre text (SText sc o en) -> 0 <= start -> start < e -> e <= sc ->
   exists l, subseg text (SText sc o en) start e = Ok l /\ Forall (wf_seg text) l /\
-    (~ cut_at_offset_zero text o start e ->
-     flat_map (seg_cols text attrs) l = sub (seg_cols text attrs (SText sc o en)) start e).
+    flat_map (seg_cols text attrs) l = sub (seg_cols text attrs (SText sc o en)) start e.
 Proof.
   intros (H1 & H2 & H3 & H4 & H5 & H6) Hs Hlt He.
   unfold subseg. cbn [seg_sc].
@@ -288,27 +271,14 @@ Proof.
     + destruct (pr =? 0) eqn:Ep; cbn [negb]; [constructor|]. constructor; [|constructor].
       cbn [wf_seg]. lia.
   - (* columns *)
-    intro Hq. cbn [seg_cols]. fold row.
+    cbn [seg_cols]. fold row.
     rewrite <- (decomp_columns row start e P M R pl pr Hwf Hs Hlt ltac:(lia) Hd).
     rewrite !flat_map_app. f_equal; [|f_equal].
     + destruct Hpl as [->|[-> (P0 & c & EPc & Hc)]]; [reflexivity|].
       change (1 =? 0) with false. cbn [negb flat_map seg_cols app]. change (Z.to_nat 1) with 1%nat. cbn [repeat].
       f_equal. specialize (HP1 eq_refl).
       assert (HL : last_attr P = rle_get_at attrs (o + bl P - 1)) by (rewrite EP at 1; apply last_attr_text_row; lia).
-      rewrite HL. unfold pad_attr.
-      destruct (o + bl P - 1 =? 0) eqn:Ez; [|reflexivity].
-      exfalso. apply Hq.
-      assert (o = 0 /\ bl P = 1) by lia. destruct H as [-> HbP1].
-      assert (HP0 : P0 = []).
-      { destruct P0 as [|y P0']; [reflexivity|]. exfalso. rewrite EPc in HwfP, HbP1.
-        apply row_wf_app in HwfP. destruct HwfP as [Hy Hc']. inversion Hy as [|? ? [Hl _] Hy']; subst.
-        inversion Hc' as [|? ? [Hl' _] _]; subst.
-        rewrite bl_app in HbP1. cbn [bl] in HbP1. pose proof (bl_nonneg P0' Hy'). lia. }
-      subst P0. cbn [app] in EPc. rewrite EPc in HwP. cbn [wd] in HwP.
-      split; [reflexivity|]. split; [left; lia|].
-      assert (Hr0 : text_row text attrs 0 en = c :: M ++ R) by (fold row; rewrite Hrow, EPc; reflexivity).
-      destruct (text_row_head text attrs en c (M ++ R) ltac:(lia) H4 Hr0) as (c0 & t0 & -> & Hw0).
-      exists c0, t0. split; [reflexivity | lia].
+      rewrite HL. reflexivity.
     + replace (e - start - pl - pr) with (wd M) by lia.
       destruct (wd M =? 0) eqn:Em; cbn [negb flat_map].
       * destruct M as [|x M']; [reflexivity|]. exfalso.
@@ -323,17 +293,7 @@ Proof.
         rewrite (text_row_split text attrs o (o + bl P) en) in Hrow by lia.
         rewrite (text_row_split text attrs (o + bl P) (o + bl P + bl M) en) in Hrow by lia.
         rewrite <- EP, <- EM in Hrow. apply app_inv_head in Hrow. apply app_inv_head in Hrow. now symmetry. }
-      rewrite ERt, first_attr_text_row by lia. unfold pad_attr.
-      destruct (o + bl P + bl M =? 0) eqn:Ez; [|reflexivity].
-      exfalso. apply Hq. destruct Hpl01 as [->| ->]; [|specialize (HP1 eq_refl); lia].
-      (* nothing is shown before the cut: the window is the first column of the text *)
-      assert (o = 0 /\ bl P = 0 /\ bl M = 0) by lia. destruct H as (-> & B1 & B2).
-      destruct M as [|x M']; [|inversion HwfM as [|? ? [Hl _] HM']; subst; cbn [bl] in B2; pose proof (bl_nonneg M' HM'); lia].
-      destruct P as [|y P']; [|inversion HwfP as [|? ? [Hl _] HP']; subst; cbn [bl] in B1; pose proof (bl_nonneg P' HP'); lia].
-      cbn [wd] in *. split; [reflexivity|]. split; [right; lia|].
-      assert (Hr0 : text_row text attrs 0 en = d :: R0) by (fold row; rewrite Hrow, ER; reflexivity).
-      destruct (text_row_head text attrs en d R0 ltac:(lia) H4 Hr0) as (c0 & t0 & -> & Hw0).
-      exists c0, t0. split; [reflexivity | lia].
+      rewrite ERt, first_attr_text_row by lia. reflexivity.
 Qed.
 
 (* ---------- subseg of the other segments, and trim_line ---------- *)
